@@ -2,6 +2,7 @@
 import KVerif.Drv.Lay
 import KVerif.Model.Kanata
 import KVerif.Model.KanataV2  -- chv2
+import KVerif.Drv.KanSeq   -- [seq]
 namespace KVerif.Drv.Kan
 open KVerif.L KVerif.K KVerif.Drv KVerif.Drv.Cfg
 
@@ -37,6 +38,9 @@ def cact : P CAct := do
   | "uc" => return .unicode (← num)
   | "sm" => return .setMouse
   | "oth" => return .other
+  | "sl" => do let t ← num; return .seqLeader t (← KanSeq.mode)   -- [seq]
+  | "sc" => return .seqCancel                                     -- [seq]
+  | "sn" => return .seqNoerase (← num)                            -- [seq]
   | x => throw s!"bad custom action token {x}"
 
 inductive KEv
@@ -88,9 +92,11 @@ def kstate : P KState := do
   expect "MODS"; let mods ← rep 8 num
   expect "BTNS"; let btns ← rep 5 (do let c ← num; let b ← num; pure (c, b))
   expect "WH"; let wh ← rep 4 (do let c ← num; let d ← num; pure (c, d))
+  let seqK ← KanSeq.seqk   -- [seq]
   return { layout := l, customs, keyOutputs := ko, overrides := Override.Overrides.new ovrs, overrideReleaseOnActivation := roa == 1,
            smoothDiagonals := smd == 1, switchMaxKeyTiming := smkt, lastPressedKey := nokey,
-           mods := { codes := mods, lsft := mods[0]!, rsft := mods[1]! }, btnCodes := btns, wheelCodes := wh }
+           mods := { codes := mods, lsft := mods[0]!, rsft := mods[1]! }, btnCodes := btns, wheelCodes := wh,
+           seq := seqK }   -- [seq]
 
 def case (tag : String) : P Case := do
   expect (tag ++ "X")
@@ -122,6 +128,7 @@ def crashName : K.Crash → String
   | .override _ => "override"
   | .underflow s => s!"underflow({s})"
   | .customId => "customId"
+  | .seq c => KanSeq.crashName c   -- [seq]
 
 structure Run where
   k : KState
@@ -203,6 +210,7 @@ def nonQuiescentOf (k k' : KState) : List String :=
     (if k'.prevKeys != k.prevKeys then ["prev_keys"] else []) ++
     (if k'.vkeysPendingRelease != k.vkeysPendingRelease then ["vkeys_pending_release"] else []) ++
     (if k'.capsWord != k.capsWord then ["caps_word"] else []) ++
+    (if k'.seq.st.active != k.seq.st.active then ["sequence_state"] else []) ++   -- [seq]
     (if k'.scroll != k.scroll || k'.hscroll != k.hscroll || k'.moveV != k.moveV || k'.moveH != k.moveH then ["mouse"] else [])
 
 def nonQuiescent (k : KState) : List String :=
